@@ -154,12 +154,11 @@ def run(ctx):
     av = repo.fn('pony.orm.core', 'Attribute.validate')
     g = cg.cfg(av)
     pc = nodes_calling(g, lambda c: dotted(c.func) == '%s.py_check' % av.recv)
-    ctx.floor('C08-CHECK', len(pc), 1, 'py_check call sites in Attribute.validate')
     conv = nodes_calling(g, lambda c: isinstance(c.func, ast.Attribute) and c.func.attr == 'validate')
+    ctx.floor('C08-CHECK', len(conv), 1, 'converter.validate call sites in Attribute.validate')
     for cnode in conv:
         # after a converter.validate call, every path to a normal return passes the py_check test
-        tests = [t for t in g.nodes if t.kind == 'test' and '%s.py_check' % av.recv in norm(t.ast)]
-        ok = g.must_pass_after(cnode, tests + pc, exits=[g.exit])
+        ok = bool(pc) and g.must_pass_after(cnode, pc, exits=[g.exit])
         ctx.ob('C08-CHECK.py_check-after-conversion', av, cnode.ast, ok,
                '' if ok else 'a converted value can be returned without applying py_check', node=cnode.ast)
     for t in [t for t in g.nodes if t.kind == 'test' and norm(t.ast).startswith('%s.py_check is not None' % av.recv)]:
